@@ -110,13 +110,20 @@ def _run(args):
         return "refused"
 
 
-def mutation_audit(prop, root="/repo", seed=0, per_function=6, total_cap=160, jobs=None):
+def mutation_audit(prop, root="/repo", seed=0, per_function=6, total_cap=160, jobs=None, all_anchor_functions=False):
     from ..cli import run_check
     ctx, rep, mod = run_check(prop, "quick", root)
     base = {i.key() for i in rep.items if i.status == "violation"}
     rng = random.Random(seed * 7919 + sum(map(ord, prop)))
     work = []
-    for qual, (rel, line) in sorted(rep.touched.items()):
+    targets = dict(rep.touched)
+    if all_anchor_functions:      # review aid: every top-level function / method of the files the property anchors in
+        from ..rules.common import anchor_files
+        files = set(anchor_files(prop))
+        for f in ctx.P.functions.values():
+            if f.module.relpath in files and f.parent is None:
+                targets.setdefault(f.qualname, (f.module.relpath, f.node.lineno))
+    for qual, (rel, line) in sorted(targets.items()):
         with open(os.path.join(root, rel), encoding="utf-8") as fh:
             src = fh.read()
         for kind, ln, before, text in _mutants_of(src, qual.split(".")[-1], line, per_function, rng):
@@ -146,5 +153,5 @@ def mutation_audit(prop, root="/repo", seed=0, per_function=6, total_cap=160, jo
                 "not the property; many mutants are harmless, so survivors are candidates for reading, not defects",
         "functions": len(per), "mutants": tot, "noticed": kil,
         "functions_where_no_mutant_is_noticed": blind,
-        "survivors_sample": surv[:400],
+        "survivors_sample": surv[:4000],
     }}
